@@ -31,6 +31,8 @@ type reqLog struct {
 	Typ   string `json:"typ"`
 	Rec   string `json:"rec"`
 	From  string `json:"from"`
+	Depth string `json:"depth"` // max-depth argument of pin/add ("" when absent)
+	Prog  string `json:"prog"`  // progress argument of pin/add
 	Unpin string `json:"unpin"`
 	Beh   string `json:"beh"`
 	Eff   string `json:"eff"`
@@ -40,6 +42,7 @@ type reqLog struct {
 type daemon struct {
 	mu       sync.Mutex
 	pins     map[string]string // abstract cid name -> none|direct|recursive|both
+	held     map[string]string // depth of the recursive pin held: "" | full | 1 | 2 (max-depth honoured: partial pin)
 	script   []string
 	next     int
 	intf     string
@@ -192,14 +195,21 @@ func (d *daemon) ServeHTTP(w http.ResponseWriter, r *http.Request) {
 		if v := q.Get("recursive"); v != "" {
 			lg.Rec = v
 		}
+		lg.Depth = q.Get("max-depth")
+		lg.Prog = q.Get("progress")
 	}
 	// an external actor changes the target just before the first mutating request
 	if short != "ls" && !d.intfDone {
 		d.intfDone = true
 		if d.intf != "keep" && d.intf != "" {
 			d.pins["c1"] = d.intf
+			d.held["c1"] = ""
+			if d.intf == "recursive" {
+				d.held["c1"] = "full"
+			}
 		}
 	}
+	prePins := map[string]string{"c1": d.pins["c1"], "c2": d.pins["c2"]}
 
 	// decide and apply under the lock; write the response after releasing it
 	var respond func()
@@ -364,6 +374,18 @@ func (d *daemon) ServeHTTP(w http.ResponseWriter, r *http.Request) {
 					fail(func() { d.stream(w, r, target, []int{0, 1}, "drop", "") })
 				}
 			}
+		}
+	}
+	// a new recursive pin is as deep as the request said; an existing one stays as it is
+	for _, c := range []string{"c1", "c2"} {
+		switch {
+		case !hasR(d.pins[c]):
+			d.held[c] = ""
+		case hasR(prePins[c]):
+		case short == "add" && lg.Depth != "":
+			d.held[c] = lg.Depth
+		default:
+			d.held[c] = "full"
 		}
 	}
 	d.reqs = append(d.reqs, lg)
